@@ -100,6 +100,44 @@ fn cases<TC: ModelCfg>(quick: bool) -> Vec<Case> {
             }
         }
     }
+    // tree-shape scenario: the publish decompresses the edge above the interior node over {p,q} AND inserts below
+    // it, while a reader walks through that node (both orientations)
+    for orient in 0..2usize {
+        let sa = shape_alphabet::<TC>(orient);
+        let (p, q, r, s_) = (sa.labels[0].clone(), sa.labels[1].clone(), sa.labels[2].clone(), sa.labels[3].clone());
+        let init: Vec<Batch> = vec![vec![(p.clone(), x.clone()), (q.clone(), x.clone())]];
+        let wb: Batch = vec![(r.clone(), x.clone()), (s_.clone(), x.clone())];
+        for (iname, inst, wcache, rcache) in [
+            ("clone_nocache", Inst::WriterClone, CacheCfg::None, CacheCfg::None),
+            ("readonly_nocache", Inst::ReadOnly, CacheCfg::None, CacheCfg::None),
+            ("readonly_cache", Inst::ReadOnly, CacheCfg::None, CacheCfg::Default),
+        ] {
+            let rops: Vec<(&str, Op)> = vec![
+                ("lookup_p", Op::Lookup(p.clone())),
+                ("lookup_q", Op::Lookup(q.clone())),
+                ("history_p", Op::History(p.clone(), HistoryParams::Complete)),
+                ("batch_lookup_pq", Op::BatchLookup(vec![p.clone(), q.clone()])),
+                ("audit", Op::Audit(0, 1)),
+            ];
+            for (rname, rop) in rops {
+                if quick && (orient == 1 || !matches!(rname, "lookup_p" | "history_p")) {
+                    continue;
+                }
+                let mut sc = base_sc();
+                sc.initial = init.clone();
+                sc.writer_cache = wcache;
+                sc.reader_cache = rcache;
+                if inst == Inst::ReadOnly && rcache != CacheCfg::None {
+                    sc.reader_warmup = vec![Op::EpochHash];
+                }
+                sc.actors = vec![
+                    Actor { name: "W".into(), inst: Inst::Writer, ops: vec![Op::Publish(wb.clone())] },
+                    Actor { name: "R".into(), inst, ops: vec![rop.clone()] },
+                ];
+                out.push(Case { name: format!("interleave_shape{orient}/{iname}/{rname}"), sc, bound: if quick { 2 } else { 3 } });
+            }
+        }
+    }
     // the same with the delivery of database responses as separate scheduling points (read-miss cache
     // fills racing the commit's write-through), on the cached instances
     for (iname, inst, wcache, rcache) in [("clone_cache", Inst::WriterClone, CacheCfg::Default, CacheCfg::None), ("readonly_cache", Inst::ReadOnly, CacheCfg::None, CacheCfg::Default)] {
